@@ -169,8 +169,14 @@ func ThreeArcCam2D(
 	p = v2.Vec{0, distance}.Sub(s.flankCenter)
 	s.thetaNose = math.Atan2(p.Y, p.X)
 	// work out the bounding box
-	// TODO fix this - it's wrong if the flank radius is small
-	s.bb = Box2{v2.Vec{-baseRadius, -baseRadius}, v2.Vec{baseRadius, distance + noseRadius}}
+	xmax := math.Max(baseRadius, noseRadius)
+	if s.thetaBase <= 0 && s.thetaNose >= 0 {
+		// the flank arcs bulge out beyond the base and nose circles
+		xmax = math.Max(xmax, s.flankCenter.X+flankRadius)
+	}
+	ymin := math.Min(-baseRadius, distance-noseRadius)
+	ymax := math.Max(baseRadius, distance+noseRadius)
+	s.bb = Box2{v2.Vec{-xmax, ymin}, v2.Vec{xmax, ymax}}
 	return &s, nil
 }
 
